@@ -14,6 +14,7 @@ package main
 
 import (
 	"runtime"
+	"time"
 
 	hook "github.com/pion/rtcp/zz_simhook"
 )
@@ -294,6 +295,32 @@ func clkRnd() uint64 {
 	z = (z ^ (z >> 30)) * 0xbf58476d1ce4e5b9
 	z = (z ^ (z >> 27)) * 0x94d049bb133111eb
 	return z ^ (z >> 31)
+}
+
+// sleepHook is the tree's time.Sleep: for the task that holds the token simulated time passes (bounded like the
+// jumps) and somebody else gets to run; any other goroutine is told to sleep for real.
+//
+//go:norace
+func sleepHook(d time.Duration) bool {
+	cur := sCur
+	me := getg()
+	if !sActive {
+		if me != sMainG {
+			return false
+		}
+	} else if cur < 0 || cur >= maxTasks || me != sTaskG[cur] {
+		return false
+	}
+	if d > 0 && hook.SimNow < simEpoch+simHorizon {
+		if d > time.Duration(clockJumps[len(clockJumps)-1]) {
+			d = time.Duration(clockJumps[len(clockJumps)-1])
+		}
+		hook.SimNow += int64(d)
+	}
+	if sActive {
+		yieldHook(-3)
+	}
+	return true
 }
 
 //go:norace
